@@ -16,6 +16,40 @@ def usort(name):
     return _sorts[name]
 
 
+def _pattern_ok(t):
+    todo, seen = [t], 0
+    while todo:
+        x = todo.pop()
+        seen += 1
+        if seen > 200 or z3.is_quantifier(x):
+            return False
+        if z3.is_app(x):
+            if x.decl().kind() in (z3.Z3_OP_ITE, z3.Z3_OP_AND, z3.Z3_OP_OR, z3.Z3_OP_NOT, z3.Z3_OP_EQ,
+                                   z3.Z3_OP_LE, z3.Z3_OP_GE, z3.Z3_OP_LT, z3.Z3_OP_GT, z3.Z3_OP_CONST_ARRAY):
+                return False
+            todo += x.children()
+    return True
+
+
+def forall(vs, body, patterns=()):
+    """ForAll with e-matching patterns when z3 accepts them, without otherwise."""
+    patterns = [p_ for p_ in patterns if isinstance(p_, z3.PatternRef) or _pattern_ok(p_)]
+    if patterns:
+        try:
+            return z3.ForAll(vs, body, patterns=list(patterns))
+        except z3.Z3Exception:
+            ok = []
+            for p_ in patterns:
+                try:
+                    z3.ForAll(vs, body, patterns=[p_])
+                    ok.append(p_)
+                except z3.Z3Exception:
+                    pass
+            if ok:
+                return z3.ForAll(vs, body, patterns=ok)
+    return z3.ForAll(vs, body)
+
+
 class Unsupported(Exception):
     """The engine cannot model this construct: the function is *undecided*."""
 
@@ -225,6 +259,28 @@ class Map(Kind):
         return ([z3.IntSort(), z3.IntSort(), z3.ArraySort(z3.IntSort(), ks),
                  z3.ArraySort(ks, z3.BoolSort()), z3.ArraySort(ks, z3.IntSort())] +
                 [z3.ArraySort(ks, s) for s in self.val.leaf_sorts()])
+
+
+class Fun(Kind):
+    """Ghost-only total function (key leaves -> value leaves), stored as nested arrays."""
+
+    def __init__(self, key, val):
+        self.key, self.val = key, val
+        self.name = 'Fun(%r, %r)' % (key, val)
+
+    def leaf_sorts(self):
+        return [nested_array_sort(self.key.leaf_sorts(), s) for s in self.val.leaf_sorts()]
+
+
+def fun_get(f, key):
+    ts = coerce(key, f.kind.key).terms
+    return V(f.kind.val, [nsel(a, ts) for a in f.terms])
+
+
+def fun_set(f, key, val):
+    ts = coerce(key, f.kind.key).terms
+    val = coerce(val, f.kind.val)
+    return V(f.kind, [nstore(a, ts, t) for a, t in zip(f.terms, val.terms)])
 
 
 class V:
@@ -464,7 +520,8 @@ def map_wf(m):
     k = z3.Const('wf!k', m.kind.key.leaf_sorts()[0])
     return z3.And(
         n >= 0, cnt >= 0, cnt <= n,
-        z3.ForAll([k], z3.Implies(z3.Select(dom, k),
-                                  z3.And(0 <= z3.Select(pos, k), z3.Select(pos, k) < n,
-                                         z3.Select(order, z3.Select(pos, k)) == k))),
+        forall([k], z3.Implies(z3.Select(dom, k),
+                               z3.And(0 <= z3.Select(pos, k), z3.Select(pos, k) < n,
+                                      z3.Select(order, z3.Select(pos, k)) == k)),
+               patterns=[z3.Select(dom, k), z3.Select(pos, k)]),
         z3.Implies(cnt == 0, z3.ForAll([k], z3.Not(z3.Select(dom, k)))))
